@@ -1,6 +1,7 @@
 package worldr
 
 import (
+	"bytes"
 	"context"
 	"crypto/x509"
 	"fmt"
@@ -594,10 +595,16 @@ func runC09(r *core.Run) {
 		}
 		tasks[i] = t
 	}
+	measBuf := r.Chance(30, "options-carry-a-measurement?")
 	newOpts := func() *verify.Options {
 		o := &verify.Options{RootsOfTrust: mkPool(), Now: now, Getter: net}
 		if shape != 3 {
 			o.SNP = &verify.SNPOptions{ExpectedLaunchVMSAs: named}
+			if measBuf {
+				// the caller's options carry a measurement of their own (a validator takes each
+				// report's measurement instead): a slice with room for 48 bytes, which stays the caller's
+				o.SNP.Measurement = append(make([]byte, 0, 64), bytes.Repeat([]byte{0xEE}, 48)...)
+			}
 		}
 		return o
 	}
